@@ -230,6 +230,12 @@ COMMENT_SINKS = {'commentdoc', 'comment_doc', 'comment', 'comment_value', 'Comme
                  '_CommentedValue', '_TrailingCommentedValue'}
 
 
+def _sinks(repo):
+    from engine import roles
+    r = roles.roles(repo)
+    return COMMENT_SINKS | ({r.get('commented_cls'), r.get('trailing_cls')} - {None})
+
+
 def _taint(repo, rep):
     global _REPO
     _REPO = repo
@@ -310,9 +316,9 @@ def _taint_use_ok(nm, par, tainted):
         p = par.get(id(p))
     if isinstance(p, ast.Call):
         cn = call_name(p)
-        if cn in COMMENT_SINKS and (child in p.args):
+        if cn in (_sinks(_REPO) if _REPO is not None else COMMENT_SINKS) and (child in p.args):
             return True, 'argument of %s' % cn
-        if cn in _ALIASES and _ALIASES[cn] and _ALIASES[cn] <= COMMENT_SINKS and child in p.args:
+        if cn in _ALIASES and _ALIASES[cn] and _ALIASES[cn] <= (_sinks(_REPO) if _REPO is not None else COMMENT_SINKS) and child in p.args:
             return True, 'argument of %s' % '/'.join(sorted(_ALIASES[cn]))
         if cn == 'bool' or cn == 'isinstance':
             return True, 'test'
